@@ -1,2 +1,462 @@
+//! Secret-taint plumbing for the constant-time monitors (C10).
+//!
+//! Under valgrind/memcheck the secret inputs of an operation are marked
+//! *undefined* with a client request; memcheck then reports any conditional
+//! jump or address computation that depends on them.  Outputs that the API
+//! defines as public are declassified.  The error counter is read before and
+//! after the measured region, so reports are attributed to one request.
+//! Two distinct marker functions delimit the measured region for the ptrace
+//! single-stepper.
 use crate::*;
-pub fn register(_m: &mut HashMap<&'static str, OpFn>) {}
+use curve25519_dalek::montgomery::MontgomeryPoint;
+use curve25519_dalek::traits::MultiscalarMul;
+
+#[cfg(not(miri))]
+#[inline(always)]
+fn vg_request(default: usize, args: &[usize; 6]) -> usize {
+    let mut result = default;
+    unsafe {
+        core::arch::asm!(
+            "rol rdi, 3",
+            "rol rdi, 13",
+            "rol rdi, 61",
+            "rol rdi, 51",
+            "xchg rbx, rbx",
+            inout("rdx") result,
+            in("rax") args.as_ptr(),
+            options(nostack)
+        );
+    }
+    result
+}
+
+#[cfg(miri)]
+fn vg_request(default: usize, _args: &[usize; 6]) -> usize {
+    default
+}
+
+pub fn running_on_valgrind() -> bool {
+    vg_request(0, &[0x1001, 0, 0, 0, 0, 0]) != 0
+}
+
+pub fn count_errors() -> usize {
+    vg_request(0, &[0x1201, 0, 0, 0, 0, 0])
+}
+
+pub fn make_undefined(p: *const u8, n: usize) {
+    vg_request(0, &[0x4d430001, p as usize, n, 0, 0, 0]);
+}
+
+pub fn make_defined(p: *const u8, n: usize) {
+    vg_request(0, &[0x4d430002, p as usize, n, 0, 0, 0]);
+}
+
+pub fn taint<T>(x: &mut T) {
+    make_undefined(x as *mut T as *const u8, std::mem::size_of::<T>());
+}
+
+pub fn untaint<T>(x: &mut T) {
+    make_defined(x as *mut T as *const u8, std::mem::size_of::<T>());
+}
+
+pub fn taint_slice<T>(x: &mut [T]) {
+    make_undefined(x.as_ptr() as *const u8, std::mem::size_of_val(x));
+}
+
+pub fn untaint_slice<T>(x: &mut [T]) {
+    make_defined(x.as_ptr() as *const u8, std::mem::size_of_val(x));
+}
+
+static mut MARK_A: u64 = 0;
+static mut MARK_B: u64 = 0;
+
+#[no_mangle]
+#[inline(never)]
+pub extern "C" fn vd_marker_begin() {
+    unsafe {
+        std::ptr::write_volatile(std::ptr::addr_of_mut!(MARK_A), 0x1111);
+    }
+}
+
+#[no_mangle]
+#[inline(never)]
+pub extern "C" fn vd_marker_end() {
+    unsafe {
+        std::ptr::write_volatile(std::ptr::addr_of_mut!(MARK_B), 0x2222);
+        std::ptr::write_volatile(std::ptr::addr_of_mut!(MARK_A), 0x3333);
+    }
+}
+
+/// run the measured region; returns (result, memcheck errors attributed to it)
+#[inline(never)]
+fn region<T>(f: impl FnOnce() -> T) -> (T, usize) {
+    let e0 = count_errors();
+    vd_marker_begin();
+    let r = f();
+    vd_marker_end();
+    let e1 = count_errors();
+    (r, e1 - e0)
+}
+
+fn fin(errs: usize, mut out: Vec<u8>) -> Out {
+    untaint_slice(&mut out);
+    vec![format!("errs={}", errs), hex(&out), tb(running_on_valgrind())]
+}
+
+fn tainted_scalar(a: &A, i: usize) -> Scalar {
+    let mut s = a.sc(i);
+    taint(&mut s);
+    s
+}
+
+fn tainted_scalars(a: &A, i: usize) -> Vec<Scalar> {
+    let mut v = a.sc_list(i);
+    taint_slice(&mut v);
+    v
+}
+
+fn tainted_ed(a: &A, i: usize) -> EdwardsPoint {
+    let mut p = a.ed(i);
+    taint(&mut p);
+    p
+}
+
+fn tainted_rs(a: &A, i: usize) -> RistrettoPoint {
+    let mut p = a.rs(i);
+    taint(&mut p);
+    p
+}
+
+fn tainted32(a: &A, i: usize) -> [u8; 32] {
+    let mut b = a.b32(i);
+    taint(&mut b);
+    b
+}
+
+fn tainted64(a: &A, i: usize) -> [u8; 64] {
+    let mut b = a.b64(i);
+    taint(&mut b);
+    b
+}
+
+pub fn register(m: &mut HashMap<&'static str, OpFn>) {
+    m.insert("ct.selftest_branch", |a| {
+        // positive control: a branch on a secret byte must be reported
+        let k = tainted32(a, 0);
+        let (r, e) = region(|| {
+            let mut acc = 0u8;
+            // secret-dependent loop bound: a real conditional branch on the secret
+            for i in 0..(k[0] & 7) {
+                acc = std::hint::black_box(acc.wrapping_add(i).rotate_left(3));
+            }
+            acc
+        });
+        fin(e, vec![r])
+    });
+    m.insert("ct.selftest_index", |a| {
+        // positive control: a secret-indexed table read must be reported
+        let k = tainted32(a, 0);
+        let table: Vec<u8> = (0..=255u8).map(|x| x.wrapping_mul(3)).collect();
+        let (r, e) = region(|| table[k[1] as usize]);
+        fin(e, vec![r])
+    });
+    m.insert("ct.selftest_clean", |a| {
+        // negative control: straight-line arithmetic on the secret is not reported
+        let k = tainted32(a, 0);
+        let (r, e) = region(|| k.iter().fold(0u8, |x, y| x ^ y.wrapping_mul(5)));
+        fin(e, vec![r])
+    });
+    // ---------------- scalar arithmetic ----------------
+    m.insert("ct.sc.mod", |a| {
+        let b = tainted32(a, 0);
+        let (r, e) = region(|| Scalar::from_bytes_mod_order(b));
+        fin(e, r.to_bytes().to_vec())
+    });
+    m.insert("ct.sc.wide", |a| {
+        let b = tainted64(a, 0);
+        let (r, e) = region(|| Scalar::from_bytes_mod_order_wide(&b));
+        fin(e, r.to_bytes().to_vec())
+    });
+    m.insert("ct.sc.canon", |a| {
+        // the validity flag is a public output; the CtOption is unwrapped only after declassification
+        let b = tainted32(a, 0);
+        let (r, e) = region(|| Scalar::from_canonical_bytes(b));
+        let mut r = r;
+        untaint(&mut r);
+        let o: Option<Scalar> = r.into();
+        fin(e, o.map(|s| s.to_bytes().to_vec()).unwrap_or_default())
+    });
+    m.insert("ct.sc.hash", |a| {
+        use sha2::{Digest, Sha512};
+        let mut msg = a.bytes(0);
+        taint_slice(&mut msg);
+        let (r, e) = region(|| Scalar::from_hash(Sha512::new().chain_update(&msg)));
+        fin(e, r.to_bytes().to_vec())
+    });
+    m.insert("ct.sc.arith", |a| {
+        let (x, y) = (tainted_scalar(a, 0), tainted_scalar(a, 1));
+        let (r, e) = region(|| {
+            let mut v = Vec::with_capacity(160);
+            v.extend_from_slice(&(x + y).to_bytes());
+            v.extend_from_slice(&(x - y).to_bytes());
+            v.extend_from_slice(&(x * y).to_bytes());
+            v.extend_from_slice(&(-x).to_bytes());
+            v
+        });
+        fin(e, r)
+    });
+    m.insert("ct.sc.invert", |a| {
+        let x = tainted_scalar(a, 0);
+        let (r, e) = region(|| x.invert());
+        fin(e, r.to_bytes().to_vec())
+    });
+    m.insert("ct.sc.batchinv", |a| {
+        let mut v = tainted_scalars(a, 0);
+        let (r, e) = region(|| Scalar::batch_invert(&mut v));
+        let mut o = r.to_bytes().to_vec();
+        for s in v.iter() {
+            o.extend_from_slice(&s.to_bytes());
+        }
+        fin(e, o)
+    });
+    m.insert("ct.sc.sumprod", |a| {
+        let v = tainted_scalars(a, 0);
+        let (r, e) = region(|| {
+            let s: Scalar = v.iter().sum();
+            let p: Scalar = v.iter().product();
+            let mut o = s.to_bytes().to_vec();
+            o.extend_from_slice(&p.to_bytes());
+            o
+        });
+        fin(e, r)
+    });
+    m.insert("ct.sc.eqsel", |a| {
+        use subtle::{ConditionallySelectable, ConstantTimeEq};
+        let (x, y) = (tainted_scalar(a, 0), tainted_scalar(a, 1));
+        let (r, e) = region(|| {
+            let c = x.ct_eq(&y);
+            Scalar::conditional_select(&x, &y, c)
+        });
+        fin(e, r.to_bytes().to_vec())
+    });
+    // ---------------- Edwards ----------------
+    m.insert("ct.ed.mul", |a| {
+        // secret scalar, public point
+        let p = a.ed(0);
+        let s = tainted_scalar(a, 1);
+        let (r, e) = region(|| (p * s).compress());
+        fin(e, r.to_bytes().to_vec())
+    });
+    m.insert("ct.ed.mul_secretpoint", |a| {
+        let p = tainted_ed(a, 0);
+        let s = tainted_scalar(a, 1);
+        let (r, e) = region(|| (p * s).compress());
+        fin(e, r.to_bytes().to_vec())
+    });
+    m.insert("ct.ed.mulbase", |a| {
+        let s = tainted_scalar(a, 0);
+        let (r, e) = region(|| EdwardsPoint::mul_base(&s).compress());
+        fin(e, r.to_bytes().to_vec())
+    });
+    m.insert("ct.ed.mulclamped", |a| {
+        let p = a.ed(0);
+        let k = tainted32(a, 1);
+        let (r, e) = region(|| p.mul_clamped(k).compress());
+        fin(e, r.to_bytes().to_vec())
+    });
+    m.insert("ct.ed.mulbaseclamped", |a| {
+        let k = tainted32(a, 0);
+        let (r, e) = region(|| EdwardsPoint::mul_base_clamped(k).compress());
+        fin(e, r.to_bytes().to_vec())
+    });
+    #[cfg(feature = "tables")]
+    m.insert("ct.ed.table", |a| {
+        use curve25519_dalek::edwards::*;
+        use curve25519_dalek::traits::BasepointTable;
+        let radix = a.int(0);
+        let p = a.ed(1);
+        let s = tainted_scalar(a, 2);
+        macro_rules! go {
+            ($t:ty) => {{
+                let t = <$t>::create(&p);
+                let (r, e) = region(|| t.mul_base(&s).compress());
+                fin(e, r.to_bytes().to_vec())
+            }};
+        }
+        match radix {
+            16 => go!(EdwardsBasepointTableRadix16),
+            32 => go!(EdwardsBasepointTableRadix32),
+            64 => go!(EdwardsBasepointTableRadix64),
+            128 => go!(EdwardsBasepointTableRadix128),
+            256 => go!(EdwardsBasepointTableRadix256),
+            _ => panic!("ARG: radix"),
+        }
+    });
+    m.insert("ct.ed.msm", |a| {
+        // secret scalars, public points
+        let s = tainted_scalars(a, 0);
+        let p = a.ed_list(1);
+        let (r, e) = region(|| EdwardsPoint::multiscalar_mul(s.iter(), p.iter()).compress());
+        fin(e, r.to_bytes().to_vec())
+    });
+    m.insert("ct.ed.pointops", |a| {
+        // add / sub / neg / double / compress / ct_eq / select on secret points
+        use subtle::{ConditionallySelectable, ConstantTimeEq};
+        let (p, q) = (tainted_ed(a, 0), tainted_ed(a, 1));
+        let (r, e) = region(|| {
+            let mut v = Vec::with_capacity(200);
+            v.extend_from_slice((p + q).compress().as_bytes());
+            v.extend_from_slice((p - q).compress().as_bytes());
+            v.extend_from_slice((-p).compress().as_bytes());
+            v.extend_from_slice(p.mul_by_cofactor().compress().as_bytes());
+            let c = p.ct_eq(&q);
+            v.extend_from_slice(EdwardsPoint::conditional_select(&p, &q, c).compress().as_bytes());
+            v.extend_from_slice(p.to_montgomery().as_bytes());
+            v
+        });
+        fin(e, r)
+    });
+    // ---------------- Montgomery / X25519 ----------------
+    m.insert("ct.mt.mul", |a| {
+        let u = MontgomeryPoint(a.b32(0));
+        let s = tainted_scalar(a, 1);
+        let (r, e) = region(|| u * s);
+        fin(e, r.to_bytes().to_vec())
+    });
+    m.insert("ct.mt.mulbits", |a| {
+        // the bit values are secret, the length is public
+        let u = MontgomeryPoint(a.b32(0));
+        let t = a.tok(1);
+        let mut bits: Vec<bool> = t.strip_prefix('b').unwrap_or_else(|| panic!("ARG: bits")).chars().map(|c| c == '1').collect();
+        taint_slice(&mut bits);
+        let (r, e) = region(|| u.mul_bits_be(bits.iter().copied()));
+        fin(e, r.to_bytes().to_vec())
+    });
+    m.insert("ct.x.x25519", |a| {
+        let k = tainted32(a, 0);
+        let u = a.b32(1);
+        let (r, e) = region(|| x25519_dalek::x25519(k, u));
+        fin(e, r.to_vec())
+    });
+    m.insert("ct.x.dh", |a| {
+        use x25519_dalek::{EphemeralSecret, PublicKey, ReusableSecret, StaticSecret};
+        let kind = a.int(0);
+        let k = tainted32(a, 1);
+        let their = PublicKey::from(a.b32(2));
+        let (r, e) = region(|| {
+            let mut v = Vec::with_capacity(64);
+            match kind {
+                0 => {
+                    let s = StaticSecret::from(k);
+                    v.extend_from_slice(PublicKey::from(&s).as_bytes());
+                    v.extend_from_slice(s.diffie_hellman(&their).as_bytes());
+                }
+                1 => {
+                    let s = ReusableSecret::random_from_rng(crate::ops_x::FixedRng(k.to_vec(), 0));
+                    v.extend_from_slice(PublicKey::from(&s).as_bytes());
+                    v.extend_from_slice(s.diffie_hellman(&their).as_bytes());
+                }
+                _ => {
+                    let s = EphemeralSecret::random_from_rng(crate::ops_x::FixedRng(k.to_vec(), 0));
+                    v.extend_from_slice(PublicKey::from(&s).as_bytes());
+                    v.extend_from_slice(s.diffie_hellman(&their).as_bytes());
+                }
+            }
+            v
+        });
+        fin(e, r)
+    });
+    // ---------------- Ristretto ----------------
+    m.insert("ct.rs.uniform", |a| {
+        let b = tainted64(a, 0);
+        let (r, e) = region(|| RistrettoPoint::from_uniform_bytes(&b).compress());
+        fin(e, r.to_bytes().to_vec())
+    });
+    m.insert("ct.rs.pointops", |a| {
+        use subtle::ConstantTimeEq;
+        let (p, q) = (tainted_rs(a, 0), tainted_rs(a, 1));
+        let (r, e) = region(|| {
+            let mut v = Vec::with_capacity(100);
+            v.extend_from_slice((p + q).compress().as_bytes());
+            v.extend_from_slice((p - q).compress().as_bytes());
+            v.push(p.ct_eq(&q).unwrap_u8());
+            v
+        });
+        fin(e, r)
+    });
+    m.insert("ct.rs.mul", |a| {
+        let p = a.rs(0);
+        let s = tainted_scalar(a, 1);
+        let (r, e) = region(|| {
+            let mut v = (p * s).compress().as_bytes().to_vec();
+            v.extend_from_slice(RistrettoPoint::mul_base(&s).compress().as_bytes());
+            v
+        });
+        fin(e, r)
+    });
+    m.insert("ct.rs.msm", |a| {
+        let s = tainted_scalars(a, 0);
+        let p = a.rs_list(1);
+        let (r, e) = region(|| RistrettoPoint::multiscalar_mul(s.iter(), p.iter()).compress());
+        fin(e, r.to_bytes().to_vec())
+    });
+    m.insert("ct.rs.dblbatch", |a| {
+        let mut p = a.rs_list(0);
+        taint_slice(&mut p);
+        let (r, e) = region(|| RistrettoPoint::double_and_compress_batch(&p));
+        let mut o = Vec::new();
+        for c in r.iter() {
+            o.extend_from_slice(c.as_bytes());
+        }
+        fin(e, o)
+    });
+    // ---------------- Ed25519 ----------------
+    m.insert("ct.sig.keygen", |a| {
+        use ed25519_dalek::SigningKey;
+        let seed = tainted32(a, 0);
+        let (r, e) = region(|| {
+            let sk = SigningKey::from_bytes(&seed);
+            let mut v = sk.verifying_key().to_bytes().to_vec();
+            v.extend_from_slice(&sk.to_scalar().to_bytes());
+            v
+        });
+        fin(e, r)
+    });
+    m.insert("ct.sig.sign", |a| {
+        use ed25519_dalek::{Signer, SigningKey};
+        let seed = tainted32(a, 0);
+        let msg = a.bytes(1);
+        let sk = SigningKey::from_bytes(&seed);
+        let (r, e) = region(|| sk.sign(&msg).to_bytes());
+        fin(e, r.to_vec())
+    });
+    m.insert("ct.sig.signph", |a| {
+        use ed25519_dalek::SigningKey;
+        use sha2::{Digest, Sha512};
+        let seed = tainted32(a, 0);
+        let msg = a.bytes(1);
+        let ctx = a.bytes(2);
+        let sk = SigningKey::from_bytes(&seed);
+        let (r, e) = region(|| {
+            sk.sign_prehashed(Sha512::new().chain_update(&msg), Some(&ctx))
+                .map(|s| s.to_bytes().to_vec())
+                .unwrap_or_default()
+        });
+        fin(e, r)
+    });
+    m.insert("ct.sig.rawsign", |a| {
+        use ed25519_dalek::hazmat::{raw_sign, ExpandedSecretKey};
+        use ed25519_dalek::VerifyingKey;
+        let eskb = tainted64(a, 0);
+        let msg = a.bytes(1);
+        let (r, e) = region(|| {
+            let esk = ExpandedSecretKey::from_bytes(&eskb);
+            // the verifying key is a public output of key derivation: declassify before it is hashed as data
+            let mut vkb = VerifyingKey::from(&esk).to_bytes();
+            untaint(&mut vkb);
+            let vk = VerifyingKey::from_bytes(&vkb).expect("vk");
+            raw_sign::<sha2::Sha512>(&esk, &msg, &vk).to_bytes()
+        });
+        fin(e, r.to_vec())
+    });
+}
